@@ -493,6 +493,63 @@ def racing_backups(ctx, n):
         ctx.sample({"race_schedule": cases[0]["sched"]})
 
 
+def collector_beside_backup(ctx, n):
+    """gc / delete removes only unreferenced blocks also when another client's backup runs beside it: the collector makes its
+    first j storage operations, a whole backup of another tree runs, the collector goes on (and the mirror image).  Nothing in
+    these archives is garbage and nothing a remaining version refers to may go."""
+    cases = []
+    for t in range(n):
+        t0, t1, t2 = scen.small_tree(ctx.rng), scen.small_tree(ctx.rng), scen.small_tree(ctx.rng)
+        t0["c"]["only0"] = {"k": "f", "data": gen.rand_bytes(ctx.rng, 7).hex(), "mode": 0o644, "mtime": 10**18}
+        t2["c"]["new2"] = {"k": "f", "data": gen.rand_bytes(ctx.rng, 9).hex(), "mode": 0o644, "mtime": 10**18 + 2}
+        ids = [[], [0], []][t % 3]
+        for j in list(range(0, 9)) + [12, 20]:
+            sched = [1] * j + [0] * 400 + [1] * 400
+            steps = [{"op": "init"}, {"op": "mktree", "path": "src", "tree": t0}, {"op": "backup", "opts": scen.small_opts(ctx.rng)},
+                     {"op": "mktree", "path": "src", "tree": t1}, {"op": "backup", "opts": scen.small_opts(ctx.rng)},
+                     {"op": "mktree", "path": "srca", "tree": t2}, {"op": "arch"},
+                     {"op": "race", "schedule": sched, "a": {"op": "backup", "src": "srca", "opts": scen.small_opts(ctx.rng)},
+                      "b": {"op": "delete", "bands": ids}},
+                     {"op": "arch"}]
+            cases.append({"id": f"g{t}_{j}", "steps": steps, "ids": ids, "j": j})
+    res = ctx.cvh_run(cases, shards=16)
+    for c in cases:
+        r = res.get(c["id"])
+        ctx.count()
+        small = {"steps": c["steps"]}
+        if r is None:
+            ctx.oracle_fail("race/harness-died", "harness died or hung", small)
+            continue
+        before, race, after = r[-3], r[-2], r[-1]
+        if race.get("panic") or race.get("timeout"):
+            ctx.oracle_fail("race/panic-or-hang", f"collector beside a backup: {race.get('panic') or 'timeout'}", small)
+            continue
+        dec = scen.decode(after["arch"])
+        bad = None
+        for bid, band in dec["bands"].items():
+            for e in scen.band_entries(band):
+                if e.get("kind") == "File":
+                    c_ = scen.entry_content(e, dec["blocks"])
+                    if isinstance(c_, str):
+                        bad = f"version b{bid:04d} still present refers to a block that is gone ({e['apath']}: {c_})"
+                        break
+            if bad:
+                break
+        if bad:
+            ctx.oracle_fail("writeonce/delete-removed-referenced-block", f"delete of {c['ids']} after {c['j']} of its operations a whole backup ran beside it "
+                                                                         f"(backup {race['a'].get('result')}, collector {race['b'].get('result')}): {bad}", small)
+            continue
+        gone = [p for p in scen.raw_files(before["arch"]) if p not in scen.raw_files(after["arch"]) and p != "GC_LOCK"
+                and not any(p.startswith("b%04d/" % i) for i in c["ids"])]
+        blocks_gone = [p for p in gone if p.startswith("d/")]
+        if race["b"].get("result") != "ok" and gone:
+            ctx.oracle_fail("writeonce/refused-delete-removed", f"a collector that was refused removed {gone[:3]}", small)
+            continue
+        ctx.dist("collector_%s_backup_%s" % (race["b"].get("result"), race["a"].get("result")))
+        if race["a"].get("result") == "ok" and race["b"].get("result") == "ok":
+            ctx.nontrivial(json.dumps([c["id"], c["j"]]))
+
+
 def exclusive_creation(ctx, rounds):
     """The atomicity the interleaving model (run2: whole transport operations) takes for granted: of several writers creating
     the same fresh path with CreateNew at the same moment, exactly one wins and the file holds the winner's bytes."""
@@ -521,12 +578,14 @@ def run(ctx):
                        "backups killed at a random storage operation incl. the empty-file state, deletes, gc, validate): raw archive snapshot "
                        "before/after every operation (nothing pre-existing altered or removed by backup; fresh band id; no path written twice; "
                        "delete removes only requested bands, unreferenced blocks, its lock) + exact L4 trace correspondence; (c) two racing "
-                       "backups under explicit schedules; (d) exclusive creation under contention: several writers creating the same new path at once, "
+                       "backups under explicit schedules; (c') a gc / delete with a whole backup of another tree run after its first j storage operations: nothing a remaining "
+                       "version refers to is removed; (d) exclusive creation under contention: several writers creating the same new path at once, "
                        "thousands of rounds: exactly one wins. non-trivial = distinct call sequence / history / schedule")
     transport_contract(ctx, 60 if quick else 2000)
     history_write_once(ctx, 14 if quick else 300, 7 if quick else 16)
     faults_in_band_creation(ctx, 3 if quick else 40)
     racing_backups(ctx, 30 if quick else 600)
+    collector_beside_backup(ctx, 3 if quick else 30)
     exclusive_creation(ctx, 4000 if quick else 60000)
     ctx.assumptions += ["the local transport is the one exercised; S3/SFTP are outside (they already refuse an existing path)",
                         "a zero-length leftover of a killed write may be completed (documented exception)"]
